@@ -97,15 +97,20 @@ static bool gen_regex(zckDL *dl) {
     dl->dl_regex = zmalloc(sizeof(regex_t));
     if(!dl->dl_regex || !create_regex(dl->zck, dl->dl_regex, regex_n)) {
         free(regex_n);
+        free(dl->dl_regex);
+        dl->dl_regex = NULL;
         return false;
     }
     free(regex_n);
     char *regex_e = add_boundary_to_regex(dl->zck, end, dl->boundary);
-    if(regex_e == NULL)
-        return false;
-    dl->end_regex = zmalloc(sizeof(regex_t));
+    dl->end_regex = regex_e ? zmalloc(sizeof(regex_t)) : NULL;
     if(!dl->end_regex || !create_regex(dl->zck, dl->end_regex, regex_e)) {
         free(regex_e);
+        free(dl->end_regex);
+        dl->end_regex = NULL;
+        regfree(dl->dl_regex);
+        free(dl->dl_regex);
+        dl->dl_regex = NULL;
         return false;
     }
     free(regex_e);
